@@ -26,7 +26,7 @@ import suites
 # is false on a REAL observation is a violation with that observation as the replay.
 
 LAYOUT = ["shape", "order", "level-missing", "level-extra", "driver-exception"]
-XLAYOUT = ["shape", "order", "tlorder", "level-plan", "level-missing", "accept", "faccept", "builderr", "driver-exception"]
+XLAYOUT = ["shape", "order", "tlorder", "level-plan", "level-missing", "accept", "naccept", "faccept", "builderr", "driver-exception"]
 PROPS = {
     "C01": dict(suites={"plan": dict(fields=LAYOUT, oracles=["isolated", "exec_perm"]),
                         "exec": dict(fields=XLAYOUT, oracles=["no_overlap", "borrow_panic"], kf1=True),
